@@ -47,7 +47,27 @@ def strategy(tier):
 
 def enumerate_cases(tier):
     per = {"B": 2, "A": 1, "P": 1, "C": 2} if tier == "quick" else {"B": 6, "A": 3, "P": 6, "C": 12, "N": 8}
-    return R.sweep(per, MAXW[tier])
+    yield from R.sweep(per, MAXW[tier])
+    # multi-controlled X with every relation between the number of controls k and of work wires m (none, fewer than k-2, exactly
+    # k-2, surplus), both work-wire types, all-ones and mixed control values: every applicable rule
+    for k in (3, 4):
+        for m in (0, 1, k - 2, k - 1, k):
+            for wwt in ("zeroed", "borrowed"):
+                for cv in ([1] * k, [1, 0] * (k // 2) + [1] * (k % 2)):
+                    if m + k + 1 > MAXW[tier]:
+                        continue
+                    if not m and wwt == "borrowed":
+                        continue
+                    kw = {"control_values": cv}
+                    if m:
+                        kw.update(work_wires=[f"w{i}" for i in range(m)], work_wire_type=wwt)
+                    t = {"op": "MultiControlledX", "p": [], "w": [f"c{i}" for i in range(k)] + ["t"], "kw": kw}
+                    try:
+                        n = len(R.applicable_rules(R.build_target(t)))
+                    except Exception:  # noqa: BLE001
+                        n = 1
+                    for r in range(n):
+                        yield {"t": t, "r": r, "maxw": MAXW[tier]}
 
 
 # ---------------------------------------------------------------------------------------------
